@@ -938,8 +938,8 @@ def _async_worker(
                 observation, reward, terminated, truncated, info = env.step(data)
                 if all(
                     [
-                        term | trunc
-                        for term, trunc in zip(terminated.values(), truncated.values())
+                        terminated[agent] | truncated.get(agent, False)
+                        for agent in terminated
                     ]
                 ):
                     observation, _ = env.reset()
